@@ -265,6 +265,81 @@ harness!(
     leak(names);
 });
 
+fn de_min<'a, T: Deserialize<'a>, const N: usize>(schema: &Schema, names: &Names, data: [u8; N], len: usize, min_len: usize) -> Option<(T, usize)> {
+    let mut src = Src::with_min(data, len, min_len);
+    let config = DeConfig { names, human_readable: false };
+    let d = match SchemaAwareDeserializer::new(&mut src, schema, config) {
+        Ok(d) => d,
+        Err(e) => {
+            leak(e);
+            return None;
+        }
+    };
+    match T::deserialize(d) {
+        Ok(v) => Some((v, src.pos)),
+        Err(e) => {
+            leak(e);
+            None
+        }
+    }
+}
+
+/// one concrete branch index byte (constant for symex), symbolic tail and length
+fn de_option_case<const NULL_FIRST: bool, const IDX: u8>(names: &Names, tail: [u8; 10], len: usize) {
+    use crate::schemas::*;
+    let schema = if NULL_FIRST { union(vec![Schema::Null, Schema::Long]) } else { union(vec![Schema::Long, Schema::Null]) };
+    let mut data = [0u8; 11];
+    data[0] = IDX << 1;
+    let mut i = 0;
+    while i < 10 { data[1 + i] = tail[i]; i += 1; }
+    let null_idx: u8 = if NULL_FIRST { 0 } else { 1 };
+    let want: Option<(Option<i64>, usize)> = if IDX == null_idx {
+        Some((None, 1))
+    } else {
+        match spec::dec_long(&tail, len - 1) {
+            Some((n, u)) => Some((Some(n), 1 + u)),
+            None => None,
+        }
+    };
+    match (de_min::<Option<i64>, 11>(&schema, names, data, len, 1), want) {
+        (Some((v, used)), Some((w, wused))) => {
+            assert!(v == w, "Option<i64>: deserialized value differs from the reference (and so from the generic decoder)");
+            assert!(used == wused, "Option<i64>: consumed a different number of bytes than the datum has");
+        }
+        (Some(_), None) => assert!(false, "Option<i64>: accepted an incomplete datum"),
+        (None, Some(_)) => assert!(false, "Option<i64>: complete datum rejected"),
+        (None, None) => {}
+    }
+    if IDX != null_idx {
+        witness!(matches!(want, Some((Some(_), 11))), "longest varint in the some branch");
+    }
+    leak(schema);
+}
+harness!(
+    /// schema-aware deserializer, Option<i64> under [null,long]: branch index 0 or 1 (concrete byte),
+    /// all tails of <= 10 bytes: agrees with the reference on value, consumption and on which byte
+    /// strings are complete datums
+    de_option_null_first, unwind = 12, {
+    let names = no_names();
+    let tail: [u8; 10] = any_bytes();
+    let len = any_usize();
+    assume(len >= 1 && len <= 11);
+    de_option_case::<true, 0>(&names, tail, len);
+    de_option_case::<true, 1>(&names, tail, len);
+    leak(names);
+});
+harness!(
+    /// the same under [long,null]
+    de_option_null_last, unwind = 12, {
+    let names = no_names();
+    let tail: [u8; 10] = any_bytes();
+    let len = any_usize();
+    assume(len >= 1 && len <= 11);
+    de_option_case::<false, 0>(&names, tail, len);
+    de_option_case::<false, 1>(&names, tail, len);
+    leak(names);
+});
+
 // ---------------------------------------------------------------------------------------------
 // structs: record serializer (in-order fields, out-of-order fields through the field cache)
 
@@ -326,6 +401,8 @@ pub const HARNESSES: &[(&str, fn())] = &[
     ("c16::ser_struct_out_of_order", ser_struct_out_of_order::body),
     ("c16::ser_str_bytes", ser_str_bytes::body),
     ("c16::ser_option", ser_option::body),
+    ("c16::de_option_null_first", de_option_null_first::body),
+    ("c16::de_option_null_last", de_option_null_last::body),
     ("c16::de_long", de_long::body),
     ("c16::de_scalars", de_scalars::body),
 ];
